@@ -11,7 +11,7 @@ Theorem C08_sync_loop_w_conservative :
   forall hashf bs nlev o now fs faults wf m lag, (forall p l, wf p l = WOk) ->
   forall stripes stop it nfail c par ne ns ni,
     let r := sync_loop_w hashf bs nlev o now fs faults wf m lag stripes stop it [] nfail c par ne ns ni in
-    w_run r = sync_loop hashf bs nlev o now fs faults stripes stop c par ne ns ni /\ w_lost r = [] /\ w_nfail r = nfail.
+    w_run r = sync_loop hashf bs nlev o now fs faults stripes stop c par ne ns ni /\ w_lost r = [] /\ w_fpos r = nfail.
 Proof. exact sync_loop_w_nofault. Qed.
 Print Assumptions C08_sync_loop_w_conservative.
 
@@ -73,65 +73,82 @@ Proof. exact scrub_read_error_safe. Qed.
 Print Assumptions scrub_read_error_safe.
 
 (* ---- parity write errors ----
-   Full strength (FaultProofs.write_error_safe_stmt): whenever some pwrite of the run fails the exit status is failing,
-   and no stripe ends recorded synced-and-healthy over a parity block that is not a generator output.  FALSE on the
-   current tree in ONE way (F-C08-parity-write-error-recorded-synced: threaded and single-thread); the two other ways found
-   on the pinned tree (errors of the last queued stripes lost; single-thread errors never reported) were repaired in /repo
-   (1304269, 55c30f5) and the exit-status half is now a theorem (write_error_exit_safe).  The check replays the witnesses
-   on the binary and raises a plain violation if exit 0 ever comes back. *)
-Theorem write_error_safe_refuted : ~ write_error_safe_stmt.
-Proof. exact write_error_safe_refuted. Qed.
-Print Assumptions write_error_safe_refuted.
+   The C08 statement for writes, at full strength, for every fault sequence (wf), io mode (single-thread / threaded n) and
+   writer schedule (lag): whenever a parity write failed the exit status is failing, and the stripe of EVERY failed write
+   (w_fpos = the stripes of the failed pwrites, one entry per failing level) ends marked bad, hence not recorded
+   synced-and-healthy.  It was refuted on the pinned tree in three ways (F-C08-mono-writer-errors-lost,
+   F-C08-last-writer-errors-lost, F-C08-parity-write-error-recorded-synced), repaired in /repo by 55c30f5, 1304269 and 0ecd44a;
+   the three former witnesses are the regression examples below (and are replayed on the binary by the check).
+   Hypothesis: NoDup stripes (the loop visits each stripe once: it iterates over increasing positions). *)
+Theorem write_error_safe :
+  forall hashf bs nlev o now fs faults wf m lag stripes stop c par,
+    NoDup stripes ->
+    let r := sync_loop_w hashf bs nlev o now fs faults wf m lag stripes stop 0 [] [] c par 0 0 0 in
+    (0 < w_nfail r -> run_failing (w_run r) = true) /\
+    (forall p, In p (w_fpos r) -> bad_at (ro_content (w_run r)) p /\ recorded_healthy (ro_content (w_run r)) p = false).
+Proof. exact write_error_safe. Qed.
+Print Assumptions write_error_safe.
 
-Theorem write_error_refuted_threaded_notlast :
-  let r := wrun (Threaded 3) 3 in
-  w_nfail r = 1 /\ run_failing (w_run r) = true /\ ro_nio (w_run r) = 1 /\
-  recorded_healthy (ro_content (w_run r)) 3 = true /\ nth 3 (nth 0 (ro_parity (w_run r)) []) PNone = PJunk 4.
-Proof. exact write_error_refuted_threaded_notlast. Qed.
-Print Assumptions write_error_refuted_threaded_notlast.
+(* the invariant behind it, for any starting point of the loop: every failed write is still queued or its stripe is marked *)
+Theorem failed_writes_marked :
+  forall hashf bs nlev o now fs faults wf m lag stripes stop it q fp c par ne ns ni,
+    NoDup stripes -> (forall p, In p fp -> ~ In p stripes) -> marks_ok q fp c ->
+    let r := sync_loop_w hashf bs nlev o now fs faults wf m lag stripes stop it q fp c par ne ns ni in
+    forall p, In p (w_fpos r) -> bad_at (ro_content (w_run r)) p.
+Proof. exact failed_writes_marked. Qed.
+Print Assumptions failed_writes_marked.
 
-(* the failing write is the last one queued: counted since the repair 1304269 (next theorem), still recorded synced *)
-Theorem write_error_last_recorded_synced :
-  let r := wrun (Threaded 3) 7 in
-  w_nfail r = 1 /\ run_failing (w_run r) = true /\ length (w_lost r) = 0 /\
-  recorded_healthy (ro_content (w_run r)) 7 = true /\ nth 7 (nth 0 (ro_parity (w_run r)) []) PNone = PJunk 8.
-Proof. exact write_error_last_recorded_synced. Qed.
-Print Assumptions write_error_last_recorded_synced.
+(* the marks touch nothing else: block maps and size unchanged, every info word outside the marked stripes unchanged; together
+   with C08_sync_loop_w_conservative, read_error_other_stripes and error_limit: all other stripes are processed normally *)
+Theorem write_marks_frame :
+  forall ps c,
+    c_disks (mark_bad_all c ps) = c_disks c /\ c_blockmax (mark_bad_all c ps) = c_blockmax c /\
+    forall p, ~ In p ps -> nth p (c_info (mark_bad_all c ps)) None = nth p (c_info c) None.
+Proof. exact mark_bad_all_frame. Qed.
+Print Assumptions write_marks_frame.
 
-(* the exit-status half of the full statement, now TRUE for every mode and writer schedule (repairs 55c30f5 and 1304269 of
-   F-C08-mono-writer-errors-lost / F-C08-last-writer-errors-lost): any failed parity write gives a failing status *)
+(* the exit-status half alone, without the NoDup hypothesis *)
 Theorem write_error_exit_safe :
   forall hashf bs nlev o now fs faults wf m lag stripes stop c par,
-    let r := sync_loop_w hashf bs nlev o now fs faults wf m lag stripes stop 0 [] 0 c par 0 0 0 in
+    let r := sync_loop_w hashf bs nlev o now fs faults wf m lag stripes stop 0 [] [] c par 0 0 0 in
     0 < w_nfail r -> run_failing (w_run r) = true.
 Proof. exact write_error_exit_safe. Qed.
 Print Assumptions write_error_exit_safe.
 
-(* single-thread mode: since the repair 55c30f5 of F-C08-mono-writer-errors-lost the exit status is failing whenever a
-   parity write failed (proved below); the stripe is still recorded synced over the old block (same defect as in
-   threaded mode, key F-C08-parity-write-error-recorded-synced) *)
-Theorem write_error_refuted_mono_recorded_synced :
-  let r := wrun Mono 3 in
-  w_nfail r = 1 /\ run_failing (w_run r) = true /\ length (w_lost r) = 0 /\
-  recorded_healthy (ro_content (w_run r)) 3 = true /\ nth 3 (nth 0 (ro_parity (w_run r)) []) PNone = PJunk 4.
-Proof. exact write_error_refuted_mono_recorded_synced. Qed.
-Print Assumptions write_error_refuted_mono_recorded_synced.
-
-Theorem write_error_exit_mono :
-  forall hashf bs nlev o now fs faults wf lag stripes stop c par,
-    let r := sync_loop_w hashf bs nlev o now fs faults wf Mono lag stripes stop 0 [] 0 c par 0 0 0 in
-    0 < w_nfail r -> run_failing (w_run r) = true.
-Proof. exact write_error_exit_mono. Qed.
-Print Assumptions write_error_exit_mono.
-
-(* what does hold: the exit status is failing as soon as ONE failed write's report is not among those the loop never
-   collected (w_lost).  Extra hypothesis w.r.t. the full statement: `length (w_lost r) < w_nfail r`. *)
+(* every report is eventually counted unless the run bails first (then the exit status is failing anyway) *)
 Theorem write_error_exit_partial :
   forall hashf bs nlev o now fs faults wf m lag stripes stop c par,
-    let r := sync_loop_w hashf bs nlev o now fs faults wf m lag stripes stop 0 [] 0 c par 0 0 0 in
+    let r := sync_loop_w hashf bs nlev o now fs faults wf m lag stripes stop 0 [] [] c par 0 0 0 in
     length (w_lost r) < w_nfail r -> run_failing (w_run r) = true.
 Proof. exact write_error_exit_partial. Qed.
 Print Assumptions write_error_exit_partial.
+
+(* regression examples: the three former refutation witnesses and a fatal (ENOSPC) write error *)
+Example C08_write_error_threaded_notlast_now_bad :
+  let r := wrun (Threaded 3) 3 in
+  w_fpos r = [3] /\ run_failing (w_run r) = true /\ ro_nio (w_run r) = 1 /\
+  recorded_healthy (ro_content (w_run r)) 3 = false /\
+  nth 3 (c_info (ro_content (w_run r))) None = Some (mkInfo 7 true false true) /\
+  recorded_healthy (ro_content (w_run r)) 4 = true /\
+  nth 3 (nth 0 (ro_parity (w_run r)) []) PNone = PJunk 4.
+Proof. exact write_error_threaded_notlast_now_bad. Qed.
+Example C08_write_error_threaded_last_now_bad :
+  let r := wrun (Threaded 3) 7 in
+  w_fpos r = [7] /\ run_failing (w_run r) = true /\ length (w_lost r) = 0 /\
+  recorded_healthy (ro_content (w_run r)) 7 = false /\ nth 7 (nth 0 (ro_parity (w_run r)) []) PNone = PJunk 8.
+Proof. exact write_error_threaded_last_now_bad. Qed.
+Example C08_write_error_mono_now_bad :
+  let r := wrun Mono 3 in
+  w_fpos r = [3] /\ run_failing (w_run r) = true /\ length (w_lost r) = 0 /\
+  recorded_healthy (ro_content (w_run r)) 3 = false /\ nth 3 (nth 0 (ro_parity (w_run r)) []) PNone = PJunk 4.
+Proof. exact write_error_mono_now_bad. Qed.
+Example C08_write_error_fatal_now_bad :
+  let r := sync_loop_w hz 1024 1 wo 7 wfs (fun _ => []) (fun pos l => if Nat.eqb pos 2 then WErr else WOk) (Threaded 3) (fun _ _ => 1)
+                       (seq 0 8) None 0 [] [] wc wpar 0 0 0 in
+  ro_bailed (w_run r) = true /\ run_failing (w_run r) = true /\ w_fpos r = [2] /\
+  recorded_healthy (ro_content (w_run r)) 2 = false /\ recorded_healthy (ro_content (w_run r)) 3 = true /\
+  recorded_healthy (ro_content (w_run r)) 4 = false.
+Proof. exact write_error_fatal_now_bad. Qed.
 
 (* non-vacuity *)
 Example C08_read_error_safe_nonvacuous :
@@ -140,7 +157,7 @@ Example C08_read_error_safe_nonvacuous :
 Proof. exact read_error_safe_nonvacuous. Qed.
 Example C08_error_limit_nonvacuous :
   let r := sync_loop_w hz 1024 1 (mkSO false false 2) 7 wfs (fun p => if Nat.eqb p 1 || Nat.eqb p 4 then [Some RdIoCont] else [])
-                       (fun _ _ => WOk) (Threaded 3) (fun _ _ => 1) (seq 0 8) None 0 [] 0 wc wpar 0 0 0 in
+                       (fun _ _ => WOk) (Threaded 3) (fun _ _ => 1) (seq 0 8) None 0 [] [] wc wpar 0 0 0 in
   ro_bailed (w_run r) = true /\ ro_nio (w_run r) = 2 /\ recorded_healthy (ro_content (w_run r)) 5 = false.
 Proof. exact error_limit_nonvacuous. Qed.
 Example C08_scrub_read_error_nonvacuous :
